@@ -21,6 +21,7 @@
   connections only, and every in-flight connection can complete by a step of its client or of the server.
 -/
 import JRV.Model.ServerLife
+import JRV.Model.ServerContend
 import JRV.Lemmas.PoolCompose
 import JRV.Properties.C09
 
@@ -1224,5 +1225,187 @@ example : ((run {} (fun _ b => b + 100) init
      .beginClose, .closeStep, .closeStep, .serveStep, .serveStep, .serveStep, .closeStep, .closeStep, .handlerFinish 0,
      .closeStep]).map
       (fun s => (s.cpc, s.conns.map (·.reply)))) = some (.returned, [some (.result 101), none]) := by decide
+
+/- ====================================================================================================================
+   The server and its ADDRESS (JRV.Model.ServerContend): a second server constructed on the busy address, a server
+   constructed without binding, a socket file removed by the environment.  "Every lifecycle history over {construct,
+   serve …, server_close}", "TCP and Unix-socket listeners": the statement for a server `A` must hold whatever other
+   constructors run on its address.
+   ==================================================================================================================== -/
+
+/-- FRAME.  The constructor of a second server `B` on `A`'s busy address — socket, failed `bind`, `server_close()`
+    of the failure path (close its own socket, stop its own pool), re-raise — changes nothing of `A`: not its state,
+    not the resolution of the address to `A`'s listening socket (the socket file of a Unix listener included). -/
+theorem C12_contender_frame (cfg : Cfg) (f : Nat → Nat → Nat) (w w' : World) (a : WAction) (hb : a.isB = true)
+    (h : stepW cfg f w a = some w') :
+    w'.a = w.a ∧ w'.bound = w.bound ∧ w'.unlinked = w.unlinked ∧ addrNamesA w' = addrNamesA w := by
+  cases a with
+  | srv x => simp [WAction.isB] at hb
+  | envUnlink => simp [WAction.isB] at hb
+  | bConstruct plain =>
+    simp only [stepW] at h
+    split at h
+    · cases h; simp [addrNamesA]
+    · cases h
+  | bStep =>
+    simp only [stepW] at h
+    split at h <;> first | (cases h; simp [addrNamesA]) | cases h
+
+/-- PROJECTION.  Whatever happens on the address, `A` makes steps of the single-server life cycle only: every theorem
+    above (`C12_isolation`, `C12_once`, `C12_full_statement`, `C12_close_post`, …) holds for `w.a` in every reachable world. -/
+theorem C12_world_projects (cfg : Cfg) (f : Nat → Nat → Nat) (bound : Bool) (w : World) (h : ReachW cfg f bound w) :
+    Reach cfg f w.a := by
+  induction h with
+  | init => exact Reach.init
+  | @step w w' a _ hst ih =>
+    cases a with
+    | srv x =>
+      simp only [stepW] at hst
+      split at hst
+      · cases hst
+      · cases hx : step? cfg f w.a x with
+        | none => simp [hx] at hst
+        | some a' =>
+          simp only [hx, Option.map_some, Option.some.injEq] at hst
+          subst hst
+          exact Reach.step x ih hx
+    | envUnlink => simp only [stepW, Option.some.injEq] at hst; subst hst; exact ih
+    | bConstruct plain => rw [(C12_contender_frame cfg f w w' _ rfl hst).1]; exact ih
+    | bStep => rw [(C12_contender_frame cfg f w w' _ rfl hst).1]; exact ih
+
+/-- TRANSPARENCY.  As long as nobody removes the socket file, a bound server behaves exactly as if it were alone:
+    each of its steps — accepting a connection included — is enabled in the world iff it is enabled for `A` by itself,
+    with the same result, whatever the contender has done or is doing. -/
+theorem C12_contention_transparent (cfg : Cfg) (f : Nat → Nat → Nat) (w : World) (hb : w.bound = true)
+    (hu : w.unlinked = false) (x : Action) :
+    stepW cfg f w (.srv x) = (step? cfg f w.a x).map fun a' => { w with a := a' } := by
+  simp only [stepW]
+  cases hacc : isAccept x
+  · simp
+  · cases hso : w.a.socketOpen
+    · -- the listening socket is closed: `A` accepts nothing anyway
+      cases x <;> simp [isAccept] at hacc
+      simp [addrNamesA, hso, step?]
+    · simp [addrNamesA, hb, hu, hso]
+
+/-- STOPPING DOES NOT DEPEND ON THE ADDRESS.  Every step that is not the acceptance of a new connection — the serving
+    thread, `shutdown()`, `server_close()`, the handlers of accepted connections, their clients — is the single-server
+    step, also for a server that was never bound and after the socket file has been removed.  With
+    `C12_world_projects`: `C12_full_statement` and `C12_close_post` are statements about `A` in every world. -/
+theorem C12_stop_independent_of_address (cfg : Cfg) (f : Nat → Nat → Nat) (w : World) (x : Action)
+    (hx : isAccept x = false) :
+    stepW cfg f w (.srv x) = (step? cfg f w.a x).map fun a' => { w with a := a' } := by
+  simp [stepW, hx]
+
+/-- Invariant of the contender: its socket is open exactly between the failed `bind` and the first step of
+    `server_close`; its pool is stopped once a pooled contender is through. -/
+private structure BGood (w : World) : Prop where
+  sock : w.bSocketOpen = true ↔ w.bpc = .bindFailed
+  pool : w.bpc = .raised → w.bPlain = false → w.bPoolStopped = true
+
+private theorem bgood_of_reach (cfg : Cfg) (f : Nat → Nat → Nat) (bound : Bool) (w : World) (h : ReachW cfg f bound w) :
+    BGood w := by
+  induction h with
+  | init => exact ⟨by simp [initW], by simp [initW]⟩
+  | @step w w' a _ hst ih =>
+    cases a with
+    | srv x =>
+      simp only [stepW] at hst
+      split at hst
+      · cases hst
+      · cases hx : step? cfg f w.a x with
+        | none => simp [hx] at hst
+        | some a' =>
+          simp only [hx, Option.map_some, Option.some.injEq] at hst
+          subst hst
+          exact ⟨ih.sock, ih.pool⟩
+    | envUnlink => simp only [stepW, Option.some.injEq] at hst; subst hst; exact ⟨ih.sock, ih.pool⟩
+    | bConstruct plain =>
+      simp only [stepW] at hst
+      split at hst
+      · cases hst; exact ⟨by simp, by simp⟩
+      · cases hst
+    | bStep =>
+      simp only [stepW] at hst
+      cases hpc : w.bpc <;> simp only [hpc] at hst
+      · cases hst
+      · cases hst
+        cases hp : w.bPlain <;> exact ⟨by simp [hp], by simp [hp]⟩
+      · cases hst
+        refine ⟨?_, by simp⟩
+        have hso : w.bSocketOpen = false := by
+          cases hso : w.bSocketOpen
+          · rfl
+          · have := ih.sock.mp hso; rw [hpc] at this; cases this
+        simp [hso]
+      · cases hst
+
+/-- THE CONTENDER ITSELF ("`server_close()` alone when it never served always terminates, after which its listening
+    socket is closed and every worker of the request pool it stops terminates", on the failure path of a constructor):
+    while `B`'s constructor is under way its next step is always enabled — nothing of `A` or of the address can hold
+    it back — and strictly decreases the number of steps left; when it is over (`raised`), `B`'s socket is closed and,
+    for a pooled `B`, its own pool is stopped. -/
+theorem C12_contender_terminates (cfg : Cfg) (f : Nat → Nat → Nat) (bound : Bool) (w : World) (h : ReachW cfg f bound w) :
+    ((w.bpc = .bindFailed ∨ w.bpc = .socketClosed) →
+      ∃ w', stepW cfg f w .bStep = some w' ∧ bRemaining w' < bRemaining w) ∧
+    (w.bpc = .raised → w.bSocketOpen = false ∧ (w.bPlain = false → w.bPoolStopped = true)) := by
+  have g := bgood_of_reach cfg f bound w h
+  refine ⟨?_, ?_⟩
+  · rintro (hp | hp)
+    · cases hpl : w.bPlain <;> simp [stepW, hp, bRemaining, hpl]
+    · simp [stepW, hp, bRemaining]
+  · intro hr
+    refine ⟨?_, g.pool hr⟩
+    cases hso : w.bSocketOpen
+    · rfl
+    · have := g.sock.mp hso; rw [hr] at this; cases this
+
+/-- `runW` on `A`'s steps is `run` on `A`, as long as the server is bound and the file is there. -/
+private theorem runW_srv (cfg : Cfg) (f : Nat → Nat → Nat) (xs : List Action) (w : World) (hb : w.bound = true)
+    (hu : w.unlinked = false) :
+    runW cfg f w (xs.map .srv) = (run cfg f w.a xs).map fun a' => { w with a := a' } := by
+  induction xs generalizing w with
+  | nil => simp [runW, run]
+  | cons x rest ih =>
+    simp only [List.map_cons, runW, run, C12_contention_transparent cfg f w hb hu x]
+    cases hx : step? cfg f w.a x with
+    | none => simp
+    | some a' =>
+      simp only [Option.map_some]
+      rw [ih { w with a := a' } hb hu]
+
+/-- SERVING AFTER CONTENTION.  A ready server on whose address a second server has been constructed (and has failed,
+    or is still failing) serves the next request as if nothing had happened: the connection reaches it through the
+    address, is accepted, handled and answered with the reply to that very request; afterwards the server is ready
+    again.  (`C12_serves_next` in the world.) -/
+theorem C12_serves_after_contention (cfg : Cfg) (f : Nat → Nat → Nat) (hcatch : cfg.catchAll = true) (w : World)
+    (hb : w.bound = true) (hu : w.unlinked = false) (hr : Ready cfg w.a) (b : Nat) (k : Kind) :
+    ∃ w', runW cfg f w ((serveOne cfg w.a.conns.length b k).map .srv) = some w' ∧ Ready cfg w'.a ∧
+      w'.bpc = w.bpc ∧ addrNamesA w' = true ∧
+      w'.a.conns = w.a.conns ++ [{ body := b, kind := k, phase := .closed, execs := execOf k,
+                                   reply := some (replyOf f (if cfg.sharedWrites then b else w.a.disp) k b) }] := by
+  obtain ⟨a', hrun, hready, hconns⟩ := C12_serves_next cfg f hcatch w.a hr b k
+  refine ⟨{ w with a := a' }, ?_, hready, rfl, ?_, hconns⟩
+  · rw [runW_srv cfg f _ w hb hu, hrun]; rfl
+  · simp [addrNamesA, hb, hu, hready.2.1]
+
+/- Non-vacuity.  Pooled `A` serves; a pooled `B` is constructed on its address and fails (three steps); `A` answers a
+   request; `server_close()` of `A` goes through: socket closed, pool stopped; the contender's socket is closed and its
+   pool stopped, the address names nobody. -/
+example : ((runW {} (fun _ b => b + 100) (initW true)
+    ([.srv .startServe, .srv .serveStep, .srv .serveStep, .bConstruct false, .bStep, .srv (.accept 1 .good false), .bStep,
+      .srv (.handlerStart 0), .srv (.request 0), .srv (.handlerFinish 0),
+      .srv .beginClose] ++ (List.replicate 2 (.srv .closeStep)) ++ (List.replicate 3 (.srv .serveStep)) ++
+      (List.replicate 3 (.srv .closeStep)))).map
+      (fun w => (w.a.cpc, w.a.socketOpen, w.a.poolStopped, w.a.conns.map (·.reply), w.bpc, w.bSocketOpen, w.bPoolStopped, addrNamesA w)))
+    = some (.returned, false, true, [some (.result 101)], .raised, false, true, false) := by rfl
+
+/- The contender needs a busy address: on an unbound server's address, or after the file is gone, `bind` does not fail
+   (not described: `none`); a client cannot reach an unbound server, which closes all the same. -/
+example : stepW {} (fun _ b => b) (initW false) (.bConstruct false) = none ∧
+    (runW {} (fun _ b => b) (initW true) [.srv .startServe, .srv .serveStep, .srv .serveStep, .envUnlink,
+      .srv (.accept 1 .good false)]) = none ∧
+    ((runW {} (fun _ b => b) (initW false) [.srv .beginClose, .srv .closeStep, .srv .closeStep, .srv .closeStep]).map
+      (fun w => (w.a.cpc, w.a.socketOpen, w.a.poolStopped))) = some (.returned, false, true) := by decide
 
 end JRV.Props
